@@ -13,7 +13,7 @@ RULE = (
     "outputs of function nodes, if/else and route gates, interrupt nodes and nested-graph nodes (with map_over / clone "
     "lists that must follow), fluently or with the node used (placed in a graph, queried) between batches. Oracle: an "
     "original<->current bijection updated simultaneously per batch; checked: inputs/outputs tuples, defaults, "
-    "has/get_default_for, get_input_type, map_inputs_to_params, map_outputs_from_original, and by running the node: every "
+    "has/get_default_for, get_input_type, get_output_type, map_inputs_to_params, map_outputs_from_original, and by running the node: every "
     "underlying parameter receives the value addressed to its current external name (or its own default/bound value) "
     "and results appear under the current output names; rejected renames must raise RenameError. Plus whole-graph "
     "alpha-renaming of generated DAGs in 1-3 stages compared with the original run. Non-trivial: history has >= 2 "
@@ -91,7 +91,10 @@ def make_fn_node(rng, kind, tag):
     outs = []
     if kind in ("fn", "int"):
         outs = [f"o{i}" for i in range(rng.randint(1, 2))]
-    fn = rt.make_function(tag, fid, params, with_source=rng.random() < 0.5)
+    ret = None
+    if kind == "fn":
+        ret = complex if len(outs) == 1 else tuple[complex, bytes]
+    fn = rt.make_function(tag, fid, params, with_source=rng.random() < 0.5, ret_ann=ret)
     rt.KIND[fid] = "fn" if kind == "fn" else ("int" if kind == "int" else "gate")
     if kind == "fn":
         rt.BEH[fid] = lambda kw, _f=fid, _n=len(outs): rt.term(_f, kw, _n)
@@ -108,7 +111,15 @@ def make_fn_node(rng, kind, tag):
     else:
         rt.BEH[fid] = lambda kw: "tA"
         node = RouteNode(fn, targets=["tA", "tB", END], name=tag)
-    return node, {"fid": fid, "params": params, "outs": outs, "kind": kind}
+    return node, {"fid": fid, "params": params, "outs": outs, "kind": kind, "out_types": _out_types(node, outs)}
+
+
+def _out_types(node, outs):
+    """Output types as the un-renamed node reports them (they must follow the outputs through renames)."""
+    try:
+        return {o: node.get_output_type(o) for o in outs}
+    except Exception:  # noqa: BLE001
+        return {}
 
 
 def static_checks(ctx, node, meta, in_hist, out_hist, case, where):
@@ -147,6 +158,14 @@ def static_checks(ctx, node, meta, in_hist, out_hist, case, where):
             if t is not p["ann"]:
                 ctx.violation("C06:input-type", f"{where}: get_input_type({cur!r})={t!r} but parameter {p['n']} is annotated {p['ann']!r} (history {in_hist})", case)
                 ok = False
+    for o0, t0 in (meta.get("out_types") or {}).items():
+        if t0 is None:
+            continue
+        ctx.obs["output_types_checked"] += 1
+        t = node.get_output_type(fo[o0])
+        if t != t0:
+            ctx.violation("C06:output-type", f"{where}: get_output_type({fo[o0]!r})={t!r} but output {o0} has type {t0!r} (history {out_hist})", case)
+            ok = False
     if not isinstance(node, GraphNode):
         exp_defaults = {fm[p["n"]]: p["d"] for p in meta["params"] if "d" in p}
         if dict(node.defaults) != exp_defaults:
@@ -253,9 +272,9 @@ def make_graph_node(rng, tag):
     if rng.random() < 0.6:
         pb[2]["d"] = f"def:{tag}.d"
     fa, fb = f"c06/{tag}/f", f"c06/{tag}/g"
-    f1 = rt.make_function("f", fa, pa)
-    f2 = rt.make_function("g", fb, pb)
     two = rng.random() < 0.5
+    f1 = rt.make_function("f", fa, pa, ret_ann=float)
+    f2 = rt.make_function("g", fb, pb, ret_ann=(tuple[complex, bytes] if two else complex))
     rt.BEH[fa] = lambda kw, _f=fa: rt.term(_f, kw, 1)
     rt.BEH[fb] = lambda kw, _f=fb, _n=(2 if two else 1): rt.term(_f, kw, _n)
     rt.KIND[fa] = rt.KIND[fb] = "fn"
@@ -274,7 +293,7 @@ def make_graph_node(rng, tag):
     order = list(node.inputs)
     params.sort(key=lambda q: order.index(q["n"]))
     outs = list(node.outputs)
-    meta = {"fid": fa, "fids": [fa, fb], "params": params, "outs": outs, "kind": "graph", "bound": bound}
+    meta = {"fid": fa, "fids": [fa, fb], "params": params, "outs": outs, "kind": "graph", "bound": bound, "out_types": _out_types(node, outs)}
     return node, meta
 
 
